@@ -1,20 +1,21 @@
-(* Hand-written model of TurDB's predicate evaluation AS IT IS (including its wrong
-   behaviour), for property C14.  Definitions only.
+(* Hand-written model of TurDB's predicate evaluation AS IT IS after the repairs
+   09f6c0c (three-valued eval_tv), e461c39 (constant folding), ad4c27e (LIKE), dd0c52e (IN
+   equality), f600909 (i64::MIN literal), 4a1f993 (NOT precedence), for property C14.
+   Definitions only.
 
    Transcribed from /repo:
-     src/sql/predicate.rs   CompiledPredicate::eval_expr (l.121, the bool evaluator used by
-                            FilterExec), eval_value (l.151, Option<Value>, used for operands and by
-                            the select list through evaluate_to_value l.1769), eval_unary_op,
-                            values_equal, value_cmp, like_match_impl, eval_binary_op,
-                            value_to_bool, eval_arithmetic_op, compare_values
-     src/sql/optimizer/rules/constant_folding.rs   try_fold_filter_predicate, literals_equal
+     src/sql/predicate.rs   CompiledPredicate::eval_expr / eval_tv (the three-valued evaluator used
+                            by FilterExec), is_predicate, value_as_tv, eval_value (Option<Value>,
+                            operands and the select list through evaluate_to_value), values_equal,
+                            value_cmp, like_match_impl, eval_arithmetic_op, compare_values
+     src/sql/optimizer/rules/constant_folding.rs   try_fold_filter_predicate, literals_equal,
+                            fold_plan (a predicate folded to FALSE keeps the scan under a constant
+                            FALSE filter)
      src/sql/optimizer/mod.rs                      optimize (max_iterations = 10)
-     src/sql/parser.rs      a negative numeric literal is UnaryOp{Minus, Literal}
+     src/sql/parser.rs      a negative numeric literal is UnaryOp{Minus, Literal}; NOT binds weaker
+                            than comparison / IS / IN / BETWEEN / LIKE
    Not translatable by tools/rs2v.py (enums, Option, strings, recursion over an AST), hence
-   hand-modelled; tied to the code by the correspondence run (Corr/C14.v).
-
-   The SQL text is produced FULLY PARENTHESISED by the harness, so TurDB's parser precedence
-   plays no role except where Corr/C14.v models it explicitly (bare NOT). *)
+   hand-modelled; tied to the code by the correspondence run (Corr/C14.v). *)
 From Coq Require Import ZArith List Bool.
 From TV Require Import Model.SqlSpec.
 Import ListNotations.
@@ -58,30 +59,23 @@ Definition f_partial_cmp (a b : Z) : option comparison := fcmp a b.
 Definition if_partial_cmp (x b : Z) : option comparison :=
   if f_ok b && negb (f_is_nan b) then Some (ifcmp_exact (round53 x) b) else None.
 
-(* (x - y).abs() < f64::EPSILON for two doubles given exactly (scaled by 2^1074):
-   the rounded difference is below 2^-52 iff the exact one is below 2^-52 - 2^-106
-   (midpoint between 2^-52 and its predecessor; the tie rounds to the even 2^-52) *)
-Definition eps_close_scaled (x y : Z) : bool := Z.abs (x - y) <? 2 ^ 1022 - 2 ^ 968.
-Definition f_eps_eq (a b : Z) : bool :=
-  f_finite a && f_finite b && eps_close_scaled (f_scaled a) (f_scaled b).
-Definition if_eps_eq (x b : Z) : bool :=
-  f_finite b && eps_close_scaled (int_scaled (round53 x)) (f_scaled b).
-
 (* ------------------------------------------------------------------ value helpers *)
-(* values_equal (l.420): used by IN lists *)
+Definition is_inull (v : ivalue) : bool := match v with INull => true | _ => false end.
+
+(* values_equal (IN lists): exact equality; NULL is handled by the caller *)
 Definition values_equal (a b : ivalue) : bool :=
   match a, b with
   | INull, INull => true
   | INull, _ | _, INull => false
   | IInt x, IInt y => x =? y
-  | IFloat x, IFloat y => f_eps_eq x y
-  | IInt x, IFloat y => if_eps_eq x y
-  | IFloat x, IInt y => if_eps_eq y x
+  | IFloat x, IFloat y => match f_partial_cmp x y with Some Eq => true | _ => false end
+  | IInt x, IFloat y => match if_partial_cmp x y with Some Eq => true | _ => false end
+  | IFloat x, IInt y => match if_partial_cmp y x with Some Eq => true | _ => false end
   | IText x, IText y => zlist_eqb' x y
   | _, _ => false
   end.
 
-(* value_cmp (l.433): used by BETWEEN *)
+(* value_cmp: used by BETWEEN *)
 Definition value_cmp (a b : ivalue) : option comparison :=
   match a, b with
   | INull, _ | _, INull => None
@@ -93,7 +87,7 @@ Definition value_cmp (a b : ivalue) : option comparison :=
   | _, _ => None
   end.
 
-(* compare_values (l.1730): NULL against NULL is Ordering::Equal here *)
+(* compare_values: (Null, Null) is still Ordering::Equal there, but eval_tv never passes a NULL *)
 Definition cmp_ordering (a b : ivalue) : option comparison :=
   match a, b with
   | INull, INull => Some Eq
@@ -105,26 +99,22 @@ Definition cmp_ordering (a b : ivalue) : option comparison :=
   | IText x, IText y => Some (bytes_cmp x y)
   | _, _ => None
   end.
-Definition compare_values (l r : option ivalue) (op : cmpop) : bool :=
-  match l, r with
-  | Some a, Some b =>
-      match cmp_ordering a b with
-      | Some c => cmp_holds op c
-      | None => false
-      end
-  | _, _ => false
+Definition compare_values (a b : ivalue) (op : cmpop) : bool :=
+  match cmp_ordering a b with
+  | Some c => cmp_holds op c
+  | None => false
   end.
 
-(* value_to_bool (l.1134) *)
-Definition value_to_bool (v : ivalue) : bool :=
-  match v with
-  | IInt n => negb (n =? 0)
-  | IFloat f => negb (f_key f =? 0) || f_is_nan f
-  | INull => false
-  | IText s => match s with [] => false | _ => true end
+(* value_as_tv: truth value of a non-predicate expression used as a condition *)
+Definition value_as_tv (o : option ivalue) : option bool :=
+  match o with
+  | Some (IInt n) => Some (negb (n =? 0))
+  | Some (IFloat f) => Some (negb (f_key f =? 0) || f_is_nan f)
+  | Some INull | None => None
+  | Some (IText _) => Some false
   end.
 
-(* eval_arithmetic_op (l.1710) with plain i64 + - * : overflow panics in the dev profile *)
+(* eval_arithmetic_op with plain i64 + - * : overflow panics in the dev profile *)
 Definition arith_i (op : arith) (a b : ivalue) : res (option ivalue) :=
   match a, b with
   | IInt x, IInt y => let z := arith_z op x y in if i64_ok z then Ok (Some (IInt z)) else Panic
@@ -132,13 +122,14 @@ Definition arith_i (op : arith) (a b : ivalue) : res (option ivalue) :=
   | _, _ => Ok None
   end.
 
-(* ------------------------------------------------------------------ LIKE (l.453 like_match_impl) *)
+(* ------------------------------------------------------------------ LIKE (like_match_impl) *)
 Fixpoint strip_pct (p : list Z) : list Z :=
   match p with c :: p' => if c =? 37 then strip_pct p' else p | [] => [] end.
 Definition is_nil (p : list Z) : bool := match p with [] => true | _ => false end.
 
 (* The two-index loop, on suffixes: t = text[ti..], p = pattern[pi..],
-   star = Some (pattern[star_pi+1..], text[star_ti..]).  None = out of fuel. *)
+   star = Some (pattern[star_pi+1..], text[star_ti..]).  None = out of fuel.
+   The wildcard test comes first. *)
 Fixpoint like_loop (fuel : nat) (t p : list Z) (star : option (list Z * list Z)) : option bool :=
   match fuel with
   | O => None
@@ -154,8 +145,8 @@ Fixpoint like_loop (fuel : nat) (t p : list Z) (star : option (list Z * list Z))
             end in
           match p with
           | c :: p' =>
-              if (c =? 95) || (c =? x) then like_loop f t' p' star
-              else if c =? 37 then like_loop f t p' (Some (p', t))
+              if c =? 37 then like_loop f t p' (Some (p', t))
+              else if (c =? 95) || (c =? x) then like_loop f t' p' star
               else backtrack
           | [] => backtrack
           end
@@ -165,14 +156,12 @@ Definition like_fuel (t p : list Z) : nat := (length t + 2) * (length p + 2).
 Definition like_impl (t p : list Z) : option bool := like_loop (like_fuel t p) t p None.
 
 (* ------------------------------------------------------------------ literals and columns *)
-(* how the harness prints a literal and what the parser + eval_value make of it:
-   a negative number is UnaryOp{Minus, Literal |v|}; Literal::Integer(s) is s.parse::<i64>() *)
+(* how the harness prints a literal and what the parser + eval_value make of it: a negative
+   integer is UnaryOp{Minus, Integer(digits)}, evaluated by parsing "-digits" as i64 *)
 Definition lit_value (v : value) : res (option ivalue) :=
   match v with
   | VNull => Ok (Some INull)
-  | VInt z =>
-      if 0 <=? z then (if z <? 2 ^ 63 then Ok (Some (IInt z)) else Ok None)
-      else (if - z <? 2 ^ 63 then Ok (Some (IInt z)) else Ok None)
+  | VInt z => if i64_ok z then Ok (Some (IInt z)) else Ok None
   | VFloat b => if f_finite b then Ok (Some (IFloat b)) else Unmod
   | VText s => Ok (Some (IText s))
   | VBool b => Ok (Some (ib b))
@@ -187,76 +176,156 @@ Definition col_value (v : value) : res (option ivalue) :=
   | VBool _ => Unmod
   end.
 
-(* ------------------------------------------------------------------ eval_value (l.151) *)
-Fixpoint eval_value (e : expr) (r : row) : res (option ivalue) :=
+(* ------------------------------------------------------------------ eval_tv / eval_value *)
+(* One traversal computes what both mutually recursive Rust functions return for a node:
+   a predicate node (is_predicate) has a truth value XT (Some true / Some false / None = UNKNOWN),
+   every other node a value XV (Option<Value>). *)
+Inductive xval := XT (t : option bool) | XV (o : option ivalue).
+
+(* eval_tv of a node, given its result: predicate nodes directly, others through value_as_tv *)
+Definition as_tv (x : xval) : option bool :=
+  match x with XT t => t | XV o => value_as_tv o end.
+(* eval_value of a node: predicates become Int(1) / Int(0) / Null *)
+Definition as_val (x : xval) : option ivalue :=
+  match x with
+  | XT (Some b) => Some (ib b)
+  | XT None => Some INull
+  | XV o => o
+  end.
+
+Definition and3 (a b : option bool) : option bool :=
+  match a, b with
+  | Some false, _ | _, Some false => Some false
+  | Some true, Some true => Some true
+  | _, _ => None
+  end.
+Definition or3 (a b : option bool) : option bool :=
+  match a, b with
+  | Some true, _ | _, Some true => Some true
+  | Some false, Some false => Some false
+  | _, _ => None
+  end.
+(* one bound of BETWEEN: `side` *)
+Definition between_side (x bound : ivalue) (reject : comparison) : option bool :=
+  if is_inull x || is_inull bound then None
+  else Some (match value_cmp x bound with
+             | Some o => match o, reject with Lt, Lt | Gt, Gt => false | _, _ => true end
+             | None => false
+             end).
+
+Fixpoint evalx (e : expr) (r : row) : res xval :=
   match e with
-  | ECol i => match nth_error r i with Some v => col_value v | None => Ok None end
-  | ELit v => lit_value v
+  | ECol i => match nth_error r i with
+              | Some v => bindr (col_value v) (fun o => Ok (XV o))
+              | None => Ok (XV None)
+              end
+  | ELit v => bindr (lit_value v) (fun o => Ok (XV o))
   | EArith op a b =>
-      bindo (eval_value a r) (fun x => bindo (eval_value b r) (fun y => arith_i op x y))
+      bindr (evalx a r) (fun xa =>
+        match as_val xa with
+        | None => Ok (XV None)
+        | Some x =>
+            bindr (evalx b r) (fun xb =>
+              match as_val xb with
+              | None => Ok (XV None)
+              | Some y => bindr (arith_i op x y) (fun o => Ok (XV o))
+              end)
+        end)
   | ECmp op a b =>
-      bindo (eval_value a r) (fun x => bindo (eval_value b r) (fun y =>
-        Ok (Some (ib (compare_values (Some x) (Some y) op)))))
+      bindr (evalx a r) (fun xa =>
+        match as_val xa with
+        | None => Ok (XT None)
+        | Some x =>
+            bindr (evalx b r) (fun xb =>
+              match as_val xb with
+              | None => Ok (XT None)
+              | Some y =>
+                  if is_inull x || is_inull y then Ok (XT None)
+                  else Ok (XT (Some (compare_values x y op)))
+              end)
+        end)
   | EAnd a b =>
-      bindo (eval_value a r) (fun x => bindo (eval_value b r) (fun y =>
-        Ok (Some (ib (value_to_bool x && value_to_bool y)))))
+      bindr (evalx a r) (fun xa =>
+        match as_tv xa with
+        | Some false => Ok (XT (Some false))
+        | l => bindr (evalx b r) (fun xb => Ok (XT (and3 l (as_tv xb))))
+        end)
   | EOr a b =>
-      bindo (eval_value a r) (fun x => bindo (eval_value b r) (fun y =>
-        Ok (Some (ib (value_to_bool x || value_to_bool y)))))
-  | ENot a =>
-      bindo (eval_value a r) (fun x =>
-        match x with IInt n => Ok (Some (ib (n =? 0))) | _ => Ok None end)
+      bindr (evalx a r) (fun xa =>
+        match as_tv xa with
+        | Some true => Ok (XT (Some true))
+        | l => bindr (evalx b r) (fun xb => Ok (XT (or3 l (as_tv xb))))
+        end)
+  | ENot a => bindr (evalx a r) (fun xa => Ok (XT (option_map negb (as_tv xa))))
   | EIsNull neg a =>
-      bindr (eval_value a r) (fun o =>
-        let is_null := match o with Some INull | None => true | Some _ => false end in
-        Ok (Some (ib (xorb neg is_null))))
+      bindr (evalx a r) (fun xa =>
+        let is_null :=
+          match xa with
+          | XT t => match t with None => true | Some _ => false end
+          | XV o => match o with Some INull | None => true | Some _ => false end
+          end in
+        Ok (XT (Some (xorb neg is_null))))
   | EIn neg a l =>
-      bindo (eval_value a r) (fun x =>
-        bindr ((fix found (l : list expr) : res bool :=
-                  match l with
-                  | [] => Ok false
-                  | i :: l' =>
-                      bindr (eval_value i r) (fun o =>
-                        match o with
-                        | Some y => if values_equal x y then Ok true else found l'
-                        | None => found l'
-                        end)
-                  end) l)
-              (fun f => Ok (Some (ib (xorb neg f)))))
+      bindr (evalx a r) (fun xa =>
+        match as_val xa with
+        | None | Some INull => Ok (XT None)
+        | Some x =>
+            bindr ((fix go (l : list expr) (unknown : bool) : res (option bool) :=
+                      match l with
+                      | [] => Ok (if unknown then None else Some neg)
+                      | i :: l' =>
+                          bindr (evalx i r) (fun xi =>
+                            match as_val xi with
+                            | None | Some INull => go l' true
+                            | Some y => if values_equal x y then Ok (Some (negb neg)) else go l' unknown
+                            end)
+                      end) l false)
+                  (fun t => Ok (XT t))
+        end)
   | EBetween neg a lo hi =>
-      bindo (eval_value a r) (fun x => bindo (eval_value lo r) (fun l => bindo (eval_value hi r) (fun h =>
-        let in_range :=
-          match value_cmp x l with Some Lt | None => false | Some _ => true end &&
-          match value_cmp x h with Some Gt | None => false | Some _ => true end in
-        Ok (Some (ib (xorb neg in_range))))))
+      bindr (evalx a r) (fun xa =>
+        match as_val xa with
+        | None => Ok (XT None)
+        | Some x =>
+            bindr (evalx lo r) (fun xl =>
+              match as_val xl with
+              | None => Ok (XT None)
+              | Some l =>
+                  bindr (evalx hi r) (fun xh =>
+                    match as_val xh with
+                    | None => Ok (XT None)
+                    | Some h =>
+                        Ok (XT (option_map (xorb neg) (and3 (between_side x l Lt) (between_side x h Gt))))
+                    end)
+              end)
+        end)
   | ELike neg a p =>
-      bindo (eval_value a r) (fun x => bindo (eval_value p r) (fun q =>
-        match x, q with
-        | IText s, IText pat =>
-            match like_impl s pat with
-            | Some m => Ok (Some (ib (xorb neg m)))
-            | None => Unmod
-            end
-        | _, _ => Ok (Some (ib (xorb neg false)))
-        end))
+      bindr (evalx a r) (fun xa =>
+        match as_val xa with
+        | None => Ok (XT None)
+        | Some x =>
+            bindr (evalx p r) (fun xp =>
+              match as_val xp with
+              | None => Ok (XT None)
+              | Some q =>
+                  match x, q with
+                  | INull, _ | _, INull => Ok (XT None)
+                  | IText s, IText pat =>
+                      match like_impl s pat with
+                      | Some m => Ok (XT (Some (xorb neg m)))
+                      | None => Unmod
+                      end
+                  | _, _ => Ok (XT (Some neg))
+                  end
+              end)
+        end)
   end.
 
-(* ------------------------------------------------------------------ eval_expr (l.121) *)
-Definition truthy (o : option ivalue) : bool :=
-  match o with Some (IInt n) => negb (n =? 0) | _ => false end.
-
-Fixpoint eval_expr (e : expr) (r : row) : res bool :=
-  match e with
-  | EAnd a b => bindr (eval_expr a r) (fun x => if x then eval_expr b r else Ok false)
-  | EOr a b => bindr (eval_expr a r) (fun x => if x then Ok true else eval_expr b r)
-  | ECmp op a b =>
-      bindr (eval_value a r) (fun x => bindr (eval_value b r) (fun y => Ok (compare_values x y op)))
-  | ELit (VBool b) => Ok b
-  | ELike _ _ _ | EBetween _ _ _ _ | EIn _ _ _ | EIsNull _ _ =>
-      bindr (eval_value e r) (fun o => Ok (truthy o))
-  | EArith _ _ _ => Ok true                    (* `_ => true` of the inner match on the operator *)
-  | ENot _ | ECol _ | ELit _ => Ok true        (* `_ => true`: no UnaryOp arm *)
-  end.
+Definition eval_tv (e : expr) (r : row) : res (option bool) := bindr (evalx e r) (fun x => Ok (as_tv x)).
+Definition eval_value (e : expr) (r : row) : res (option ivalue) := bindr (evalx e r) (fun x => Ok (as_val x)).
+(* eval_expr: a row passes only if the predicate is TRUE *)
+Definition eval_expr (e : expr) (r : row) : res bool :=
+  bindr (eval_tv e r) (fun t => Ok (match t with Some true => true | _ => false end)).
 
 (* ------------------------------------------------------------------ constant folding *)
 Inductive folded := FTrue | FFalse | FSimp (e : expr).
@@ -271,15 +340,14 @@ Definition as_literal (e : expr) : option value :=
   | ELit (VFloat b) => if f_sign b =? 0 then Some (VFloat b) else None
   | _ => None
   end.
-(* literals_equal: same kind and same source text (the harness prints one text per value) *)
-Definition literals_equal (l r : value) : bool :=
+(* literals_equal: decided only for two literals of one kind (booleans, integers that parse as
+   i64, strings); NULL, floats and mixed kinds are left to the executor *)
+Definition literals_equal (l r : value) : option bool :=
   match l, r with
-  | VNull, _ | _, VNull => false
-  | VBool a, VBool b => Bool.eqb a b
-  | VInt a, VInt b => a =? b
-  | VFloat a, VFloat b => a =? b
-  | VText a, VText b => zlist_eqb' a b
-  | _, _ => false
+  | VBool a, VBool b => Some (Bool.eqb a b)
+  | VInt a, VInt b => if i64_ok a && i64_ok b then Some (a =? b) else None
+  | VText a, VText b => Some (zlist_eqb' a b)
+  | _, _ => None
   end.
 
 Fixpoint try_fold (e : expr) : option folded :=
@@ -304,12 +372,12 @@ Fixpoint try_fold (e : expr) : option folded :=
       end
   | ECmp CEq l r =>
       match as_literal l, as_literal r with
-      | Some a, Some b => Some (if literals_equal a b then FTrue else FFalse)
+      | Some a, Some b => option_map (fun eq : bool => if eq then FTrue else FFalse) (literals_equal a b)
       | _, _ => None
       end
   | ECmp CNe l r =>
       match as_literal l, as_literal r with
-      | Some a, Some b => Some (if literals_equal a b then FFalse else FTrue)
+      | Some a, Some b => option_map (fun eq : bool => if eq then FFalse else FTrue) (literals_equal a b)
       | _, _ => None
       end
   | ENot a =>
@@ -321,26 +389,25 @@ Fixpoint try_fold (e : expr) : option folded :=
   | _ => None
   end.
 
-(* Optimizer::optimize: the rule is applied until nothing changes, at most 10 times *)
-Inductive plan_pred := PAll | PNone | PFilter (e : expr).
+(* Optimizer::optimize: the rule is applied until nothing changes, at most 10 times.
+   AlwaysTrue drops the filter; AlwaysFalse keeps the scan under the filter `FALSE`. *)
+Inductive plan_pred := PAll | PFilter (e : expr).
 Fixpoint fold_iter (n : nat) (e : expr) : plan_pred :=
   match n with
   | O => PFilter e
   | S n' =>
       match try_fold e with
       | None => PFilter e
-      | Some FTrue => PAll            (* filter removed *)
-      | Some FFalse => PNone          (* LogicalOperator::Values(empty): planning then fails *)
+      | Some FTrue => PAll
+      | Some FFalse => PFilter (ELit (VBool false))
       | Some (FSimp e') => fold_iter n' e'
       end
   end.
 
-(* ------------------------------------------------------------------ parser: NOT binds tighter than comparison *)
-(* src/sql/parser.rs parse_prefix: `NOT` parses its operand with binding power 14, above the
-   comparison / IS / IN / BETWEEN / LIKE level (6).  When the harness prints `NOT x <op> y`
-   WITHOUT parentheses around the comparison (style 1; x an atom printed without parentheses),
-   TurDB reads `(NOT x) <op> y`.  `reparse_bare e` is the tree TurDB builds for the style-1 text
-   of e; in style 0 (fully parenthesised) the tree is e itself. *)
+(* ------------------------------------------------------------------ parser *)
+(* The harness prints either fully parenthesised (style 0) or with `NOT x <op> y` bare (style 1,
+   x an atom).  Since 4a1f993 the parser reads NOT x <op> y as NOT (x <op> y): both styles
+   build the same tree. *)
 Definition bare_atom (e : expr) : bool :=
   match e with
   | ECol _ => true
@@ -349,47 +416,12 @@ Definition bare_atom (e : expr) : bool :=
   | ELit _ => true
   | _ => false
   end.
-(* the NOT nodes that style 1 prints bare *)
 Definition bare_target (x : expr) : bool :=
   match x with
   | ECmp _ a _ | EIsNull _ a | EIn false a _ | EBetween false a _ _ | ELike false a _ => bare_atom a
-  | _ => false      (* NOT IN / NOT BETWEEN / NOT LIKE under a bare NOT are never printed bare *)
+  | _ => false
   end.
-Fixpoint reparse_bare (e : expr) : expr :=
-  match e with
-  | ECol _ | ELit _ => e
-  | EArith op a b => EArith op (reparse_bare a) (reparse_bare b)
-  | ECmp op a b => ECmp op (reparse_bare a) (reparse_bare b)
-  | EAnd a b => EAnd (reparse_bare a) (reparse_bare b)
-  | EOr a b => EOr (reparse_bare a) (reparse_bare b)
-  | ENot x =>
-      if bare_target x then
-        match x with
-        | ECmp op a b => ECmp op (ENot a) (reparse_bare b)
-        | EIsNull neg a => EIsNull neg (ENot a)
-        | EIn neg a l => EIn neg (ENot a) (map reparse_bare l)
-        | EBetween neg a lo hi => EBetween neg (ENot a) (reparse_bare lo) (reparse_bare hi)
-        | ELike neg a p => ELike neg (ENot a) (reparse_bare p)
-        | _ => ENot (reparse_bare x)
-        end
-      else ENot (reparse_bare x)
-  | EIn neg a l => EIn neg (reparse_bare a) (map reparse_bare l)
-  | EBetween neg a lo hi => EBetween neg (reparse_bare a) (reparse_bare lo) (reparse_bare hi)
-  | ELike neg a p => ELike neg (reparse_bare a) (reparse_bare p)
-  | EIsNull neg a => EIsNull neg (reparse_bare a)
-  end.
-(* does style 1 print some NOT bare, i.e. does TurDB build a different tree *)
-Fixpoint has_bare (e : expr) : bool :=
-  match e with
-  | ECol _ | ELit _ => false
-  | EArith _ a b | ECmp _ a b | EAnd a b | EOr a b | ELike _ a b => has_bare a || has_bare b
-  | ENot x => bare_target x || has_bare x
-  | EIn _ a l => has_bare a || existsb has_bare l
-  | EBetween _ a lo hi => has_bare a || has_bare lo || has_bare hi
-  | EIsNull _ a => has_bare a
-  end.
-(* the tree TurDB evaluates for a query printed in the given style *)
-Definition parsed (sty : Z) (e : expr) : expr := if sty =? 1 then reparse_bare e else e.
+Definition parsed (sty : Z) (e : expr) : expr := e.
 
 (* ------------------------------------------------------------------ the two query shapes *)
 (* what a query is observed to do *)
@@ -413,7 +445,6 @@ Fixpoint filter_rows (e : expr) (t : table) : res (list Z) :=
 Definition model_where (e : expr) (t : table) : mout :=
   match fold_iter 10 e with
   | PAll => MOut (QRows (map (fun _ => 1) t))
-  | PNone => MOut QErr
   | PFilter e' =>
       match filter_rows e' t with
       | Ok m => MOut (QRows m)
